@@ -334,7 +334,8 @@ def run(ctx):
         ok = strip("tuple(slice(pp,sh-pp)forsh,ppinzip(self.shape,self.padding))") in t
         fi2 = OG.methods["_is_index_refined"]
         t2 = " ".join(strip(src(st)) for st in fi2.node.body)
-        ok = ok and (strip("(ii>=pp)*(ii<sh-pp)") in t2 or strip("(ii<sh-pp)*(ii>=pp)") in t2) and strip("zip(index,self.padding,self.shape)") in t2
+        ok = ok and any(strip(w_) in t2 for w_ in ("(ii>=pp)*(ii<sh-pp)", "(ii<sh-pp)*(ii>=pp)", "(pp<=ii)*(ii<sh-pp)", "(ii<sh-pp)*(pp<=ii)")) and \
+            strip("zip(index,self.padding,self.shape)") in t2
         return ok, None
     decide("R31.2", f"{OG.key}::refined indices are exactly [padding, shape - padding)", open_refined, OG.methods["refined_indices"])
 
@@ -413,3 +414,51 @@ def _floor_simpl(sp, t, c_, split):
     if sp.simplify(a).is_integer:
         return sp.simplify(a)
     return t
+
+
+def r31_4(ctx, m):
+    """the physical extent used by the scaled open grid is the same expression in all three coordinate maps"""
+    from ..terms import canon
+    GI = "nifty.re.multi_grid.grid_impl"
+    C = m.cls(GI, "SimpleOpenGridAtLevel")
+    ctx.rule("R31.4", "SimpleOpenGridAtLevel: index2coord multiplies, coord2index divides and index2volume scales by the SAME extent "
+                      "(shape + 2*shifts)*distances, each around the parent class' normalised map", floor=3)
+    ctx.saw_class(C)
+    ext = {}
+    for name, op in (("index2coord", ast.Mult), ("coord2index", ast.Div), ("index2volume", ast.Mult)):
+        fi = C.methods.get(name)
+        if fi is None:
+            ctx.und("R31.4", f"{C.key}.{name}", "missing", C)
+            return
+        ctx.saw_func(fi)
+        sup = any(isinstance(c, ast.Call) and isinstance(c.func, ast.Attribute) and c.func.attr == name and "super()" in src(c.func.value) for c in ast.walk(fi.node))
+        cand = [b for b in ast.walk(fi.node) if isinstance(b, ast.BinOp) and isinstance(b.op, op) and
+                ("self.distances" in src(b.right)) != ("self.distances" in src(b.left)) and (isinstance(b.op, ast.Mult) or "self.distances" in src(b.right))]
+        if name == "index2volume" or not cand:
+            cand = cand or [b for b in ast.walk(fi.node) if isinstance(b, ast.BinOp) and isinstance(b.op, op) and "self.distances" in src(b)]
+        if len(cand) < 1 or not sup:
+            ctx.und("R31.4", f"{fi.key}::extent factor", f"{len(cand)} candidate factors, delegates to super: {sup}", fi)
+            return
+        f_ = cand[0].right if "self.distances" in src(cand[0].right) else cand[0].left
+        # strip broadcasting subscript and np.prod
+        while True:
+            if isinstance(f_, ast.Subscript):
+                f_ = f_.value
+            elif isinstance(f_, ast.Call) and call_name(f_) == "prod" and f_.args:
+                f_ = f_.args[0]
+            else:
+                break
+        ext[name] = canon(f_, add=True)
+    want = canon("(self.shape + 2 * self.shifts) * self.distances", add=True)
+    for name, t in ext.items():
+        ctx.check("R31.4", f"{C.key}.{name}::extent = (shape + 2*shifts)*distances", t == want,
+                  f"uses `{t}`" + ("" if t == want else f": differs from the extent of the sibling maps ({sorted(set(ext.values()) - {t})}), so index -> coordinate -> index does not round-trip on padded levels"),
+                  C.methods[name])
+
+
+_run_c31b = run
+
+
+def run(ctx):  # noqa: F811
+    _run_c31b(ctx)
+    r31_4(ctx, ctx.model)
